@@ -512,52 +512,58 @@ func init() {
 		return RunDis(b)
 	}
 	caseRunners["mdi"] = func(hdr []string, body string) string {
-		if len(hdr) != 4 {
+		f, paths, ok := parseMdiCase(hdr, body)
+		if !ok {
 			return "BAD-CASE"
-		}
-		var f [4]float32
-		for i := range f {
-			x, err := ParseF32(hdr[i])
-			if err != nil {
-				return "BAD-CASE"
-			}
-			f[i] = x
-		}
-		var paths []MdPath
-		for _, part := range strings.Split(body, ";") {
-			t := strings.Fields(part)
-			if len(t) == 0 {
-				continue
-			}
-			if len(t) != 3 {
-				return "BAD-CASE"
-			}
-			op, err := ParseF32(t[0])
-			if err != nil {
-				return "BAD-CASE"
-			}
-			d, err := ParseBytes(t[1])
-			if err != nil {
-				return "BAD-CASE"
-			}
-			p := MdPath{Opacity: op, D: string(d)}
-			if t[2] != "-" {
-				for _, cs := range strings.Split(t[2], ":") {
-					v := strings.Split(cs, ",")
-					if len(v) != 3 {
-						return "BAD-CASE"
-					}
-					a, _ := ParseF32(v[0])
-					b, _ := ParseF32(v[1])
-					c, _ := ParseF32(v[2])
-					p.Circles = append(p.Circles, mdicons.Circle{Cx: a, Cy: b, R: c})
-				}
-			}
-			paths = append(paths, p)
 		}
 		obs, _ := RunMdi(f[0], f32.Vec2{f[1], f[2]}, f[3], paths)
 		return obs
 	}
+}
+
+func parseMdiCase(hdr []string, body string) (f [4]float32, paths []MdPath, ok bool) {
+	if len(hdr) != 4 {
+		return
+	}
+	for i := range f {
+		x, err := ParseF32(hdr[i])
+		if err != nil {
+			return
+		}
+		f[i] = x
+	}
+	for _, part := range strings.Split(body, ";") {
+		t := strings.Fields(part)
+		if len(t) == 0 {
+			continue
+		}
+		if len(t) != 3 {
+			return
+		}
+		op, err := ParseF32(t[0])
+		if err != nil {
+			return
+		}
+		d, err := ParseBytes(t[1])
+		if err != nil {
+			return
+		}
+		p := MdPath{Opacity: op, D: string(d)}
+		if t[2] != "-" {
+			for _, cs := range strings.Split(t[2], ":") {
+				v := strings.Split(cs, ",")
+				if len(v) != 3 {
+					return
+				}
+				a, _ := ParseF32(v[0])
+				b, _ := ParseF32(v[1])
+				c, _ := ParseF32(v[2])
+				p.Circles = append(p.Circles, mdicons.Circle{Cx: a, Cy: b, R: c})
+			}
+		}
+		paths = append(paths, p)
+	}
+	return f, paths, true
 }
 
 var _ = hex.EncodeToString
